@@ -8,6 +8,7 @@ cd /verif && timeout 1800 ./check "$id" "$tier" > "/tmp/mut.$$.out" 2>&1; rc=$?
 git -C /repo checkout -- . ; git -C /repo clean -fdq
 # the mutant run rewrote the evidence file; restore the committed one
 git -C /verif checkout -- "evidence/$id.json" 2>/dev/null
+rm -f /verif/replays/$id-*.json
 echo "mutant=$(basename $p) check=$id tier=$tier exit=$rc $(grep -c '^VIOLATION' /tmp/mut.$$.out) violation lines"
 grep -m2 -A1 '^VIOLATION\|^BUILD-FAILED\|^NOTHING' "/tmp/mut.$$.out" | cut -c1-400
 rm -f "/tmp/mut.$$.out"
